@@ -85,40 +85,39 @@ Proof.
   destruct (N.eqb (t_off l) pg); [apply map_cell_keys; exact Hg | reflexivity].
 Qed.
 
+Lemma inert_touch_gen s pg k g l nl w :
+  (forall x, lc_key (g x) = lc_key x) -> Good s -> nextLSN s <= l + 1 -> nextLSN s <= nl -> rec_inert s w ->
+  rec_inert (mkStore (touch_forest pg k l g (forest s)) (lastKey s) (ptRoot s) (nextFree s) nl) w.
+Proof.
+  intros Hg [[_ Hn _] [_ Hl]] Hll Hnl' (Hlt & b & n & Hpi & Hd). split; [cbn [nextLSN]; lia|]. cbn [forest].
+  destruct Hpi as (t & Ht & Hin & Hp & Hb).
+  assert (G : forall f, In t f -> exists t' n', In t' (touch_forest pg k l g f) /\ In n' (nodes t') /\
+               t_off n' = t_off n /\ t_off t' = t_off t /\ t_lsn n <= t_lsn n' /\
+               (n = t -> n' = t') /\ keys_of (all_cells n') = keys_of (all_cells n)).
+  { assert (Hlsn : forall x, t_lsn x < nextLSN s -> t_lsn x <= t_lsn (touch_leaf pg k l g x)).
+    { intros x Hx. destruct (touch_lsn pg k l g x) as [X|X]; rewrite X; lia. }
+    assert (Hnl : t_lsn n < nextLSN s).
+    { rewrite Forall_forall in Hl. specialize (Hl t Ht). rewrite Forall_forall in Hl. apply Hl. exact Hin. }
+    induction f as [|a f IH]; intros Hf; [contradiction|]. cbn [touch_forest]. destruct Hf as [->|Hf].
+    - destruct (has_page pg t).
+      + exists (touch_leaf pg k l g t), (touch_leaf pg k l g n).
+        split; [left; reflexivity|]. split; [rewrite touch_nodes; apply in_map; exact Hin|].
+        rewrite !touch_off. repeat split; auto; [intros ->; reflexivity | apply touch_cell_keys; exact Hg].
+      + exists t, n. split; [left; reflexivity|]. repeat split; auto. lia.
+    - destruct (has_page pg a).
+      + exists t, n. split; [right; exact Hf|]. repeat split; auto. lia.
+      + destruct (IH Hf) as (t' & n' & A & B). exists t', n'. split; [right; exact A | exact B]. }
+  destruct (G (forest s) Ht) as (t' & n' & A & B & C & D & F & H1 & H2).
+  exists (N.eqb (t_off t') (w_page w)), n'. split.
+  + exists t'. repeat split; auto. congruence.
+  + destruct Hd as [Hd|(X & Y & Z)]; [left; lia|]. right. split; [exact X|]. split; [|rewrite H2; exact Z].
+    rewrite D, <- Hb. exact Y.
+Qed.
+
 Lemma inert_touch s pg k g w :
   (forall x, lc_key (g x) = lc_key x) -> Good s -> rec_inert s w ->
   rec_inert (mkStore (touch_forest pg k (nextLSN s) g (forest s)) (lastKey s) (ptRoot s) (nextFree s) (nextLSN s + 1)) w.
-Proof.
-  intros Hg [[_ Hn _] [_ Hl]] (Hlt & b & n & Hpi & Hd). split; [cbn [nextLSN]; lia|]. cbn [forest].
-  destruct (N.eq_dec (w_page w) pg) as [E|E].
-  - rewrite E in Hpi. exists b, (touch_leaf pg k (nextLSN s) g n). split; [rewrite E; apply touch_forest_page; assumption|].
-    destruct Hd as [Hd|(A & B & C)].
-    + left. destruct (touch_lsn pg k (nextLSN s) g n) as [X|X]; rewrite X; lia.
-    + right. split; [exact A|]. split; [exact B|]. rewrite touch_cell_keys by exact Hg. exact C.
-  - (* another page: found unchanged unless it is an ancestor or relative of the touched leaf *)
-    destruct Hpi as (t & Ht & Hin & Hp & Hb).
-    assert (G : forall f, In t f -> exists t' n', In t' (touch_forest pg k (nextLSN s) g f) /\ In n' (nodes t') /\
-                 t_off n' = t_off n /\ t_off t' = t_off t /\ t_lsn n <= t_lsn n' /\
-                 (n = t -> n' = t') /\ keys_of (all_cells n') = keys_of (all_cells n)).
-    { assert (Hlsn : forall x, t_lsn x < nextLSN s -> t_lsn x <= t_lsn (touch_leaf pg k (nextLSN s) g x)).
-      { intros x Hx. destruct (touch_lsn pg k (nextLSN s) g x) as [X|X]; rewrite X; lia. }
-      assert (Hnl : t_lsn n < nextLSN s).
-      { rewrite Forall_forall in Hl. specialize (Hl t Ht). rewrite Forall_forall in Hl. apply Hl. exact Hin. }
-      induction f as [|a f IH]; intros Hf; [contradiction|]. cbn [touch_forest]. destruct Hf as [->|Hf].
-      - destruct (has_page pg t).
-        + exists (touch_leaf pg k (nextLSN s) g t), (touch_leaf pg k (nextLSN s) g n).
-          split; [left; reflexivity|]. split; [rewrite touch_nodes; apply in_map; exact Hin|].
-          rewrite !touch_off. repeat split; auto; [intros ->; reflexivity | apply touch_cell_keys; exact Hg].
-        + exists t, n. split; [left; reflexivity|]. repeat split; auto. lia.
-      - destruct (has_page pg a).
-        + exists t, n. split; [right; exact Hf|]. repeat split; auto. lia.
-        + destruct (IH Hf) as (t' & n' & A & B). exists t', n'. split; [right; exact A | exact B]. }
-    destruct (G (forest s) Ht) as (t' & n' & A & B & C & D & F & H1 & H2).
-    exists (N.eqb (t_off t') (w_page w)), n'. split.
-    + exists t'. repeat split; auto. congruence.
-    + destruct Hd as [Hd|(X & Y & Z)]; [left; lia|]. right. split; [exact X|]. split; [|rewrite H2; exact Z].
-      rewrite D, <- Hb. exact Y.
-Qed.
+Proof. intros Hg G H. apply inert_touch_gen; auto; lia. Qed.
 
 Lemma tree_insert_cells s t k lsn v t' nf :
   SInv s -> In t (forest s) -> Forall (fun x => x < k) (tree_keys t) ->
